@@ -328,7 +328,7 @@ fn main() {
 
     // ---- random deeper trees
     let depth = cli.t(4, 6);
-    let n_rand = cli.t(10_000u64, 600_000u64);
+    let n_rand = cli.t(10_000u64, 5_000_000u64);
     let reps = vmon::par_for(cli.threads, n_rand, 32, |_| Report::new("C04", "w"), |rep, i| {
         let mut rng = Rng::derive(cli.seed, &[4, i]);
         let (node, nl) = random_bounded_tree(&mut rng, depth, 5);
